@@ -38,6 +38,7 @@ type park struct {
 // group = the transports of one scenario or cell with their parked negotiation ends
 type group struct {
 	ctlIncoming atomic.Bool // accepting ends park at gates
+	holdHandle  atomic.Bool // ends that returned a fresh connection also park where handlePeer starts (after reuseConnection has returned)
 	parkCh      chan *park
 	parks       map[string]*park // peer/dir -> parked end
 	gids        map[string]int64 // peer/dir -> goroutine of the last seen end
@@ -84,6 +85,9 @@ func at(point string, node uint64) {
 			return
 		}
 	} else {
+		return
+	}
+	if point == "reuse:handle" && !c.g.holdHandle.Load() {
 		return
 	}
 	ev := &park{peer: c.peer, dir: node, point: point, gid: self, resume: make(chan struct{})}
